@@ -10,6 +10,10 @@ def sensemod():
     return importlib.import_module("pyscsi.pyscsi.scsi_sense")
 
 
+OTHER_FIXED = bytes([0xF0, 0, 0x03, 1, 2, 3, 4, 10, 5, 6, 7, 8, 0x11, 0x00, 9, 0x80, 1, 2])  # MEDIUM ERROR 11h/00h, valid, sksv
+OTHER_DESCRIPTOR = bytes([0x72, 0x06, 0x29, 0x00, 0, 0, 0, 0])  # UNIT ATTENTION 29h/00h, no descriptors
+
+
 class SenseDecode(Unit):
     """SCSICheckCondition(sense), str(), print_data() for every buffer content of a given length"""
 
@@ -23,15 +27,31 @@ class SenseDecode(Unit):
 
     def cases(self, tier):
         lens = list(range(1, 33)) + [252] if tier == "quick" else list(range(1, 253))
-        return [{"n": n, "print": p} for n in lens for p in ((False,) if n not in (18, 32) and tier == "quick" else (False, True))]
+        cs = [{"n": n, "print": p} for n in lens for p in ((False,) if n not in (18, 32) and tier == "quick" else (False, True))]
+        # "every sense buffer a target can return" arrives in a process that has seen other sense buffers: another
+        # error object (fixed and descriptor format, different key / ASC) is built before this one, or between
+        # building this one and converting it to text
+        for n in ((1, 3, 8, 18) if tier == "quick" else (1, 2, 3, 4, 8, 13, 14, 18, 32)):
+            for other in ("fixed-before", "descriptor-before", "fixed-between", "descriptor-between"):
+                cs.append({"n": n, "print": False, "other": other})
+        return cs
+
+    def case_id(self, case):
+        return "n=%d,print=%s%s" % (case["n"], case["print"], ",other=" + case["other"] if case.get("other") else "")
 
     def inputs(self, case):
         return {"sense": Bytes(case["n"], mutable=False)}
 
     def run(self, X, case, a):
         K = sensemod().SCSICheckCondition
+        other = case.get("other", "")
+        osense = OTHER_FIXED if other.startswith("fixed") else OTHER_DESCRIPTOR
+        if other.endswith("before"):
+            X.call(X.call(K, osense).__str__)
         exc = X.call(K, a.sense, case["print"]) if case["print"] else X.call(K, a.sense)
         self.exc = exc
+        if other.endswith("between"):
+            X.call(X.call(K, osense).__str__)
         text = X.call(exc.__str__)
         return exc, text
 
